@@ -18,17 +18,20 @@ pub struct Case {
     /// indices into the reduced set of the type
     pub seq: Vec<usize>,
     pub disk: bool,
+    /// finalize placements: bit 0 = before the first write, bit i = after the i-th write
+    pub fin_mask: u32,
 }
 
 impl Case {
     pub fn to_json(&self) -> Value {
-        json!({"ty": self.ty.name(), "seq": self.seq, "disk": self.disk})
+        json!({"ty": self.ty.name(), "seq": self.seq, "disk": self.disk, "fin_mask": self.fin_mask})
     }
     pub fn from_json(v: &Value) -> Option<Case> {
         Some(Case {
             ty: Ty::from_name(v.get("ty")?.as_str()?)?,
             seq: v.get("seq")?.as_array()?.iter().map(|x| x.as_u64().map(|u| u as usize)).collect::<Option<Vec<_>>>()?,
             disk: v.get("disk")?.as_bool()?,
+            fin_mask: v.get("fin_mask").and_then(|x| x.as_u64()).unwrap_or(0) as u32,
         })
     }
     fn hash(&self) -> u64 {
@@ -38,6 +41,7 @@ impl Case {
             h.u64(*s as u64 + 1);
         }
         h.u64(self.disk as u64);
+        h.u64(self.fin_mask as u64);
         h.finish()
     }
 }
@@ -51,6 +55,8 @@ pub struct Obs {
     pub seq_without: Result<Vec<MRead>, String>,
     /// read_nth_shape(i) for i in 0..n+2: Some(Ok), Some(Err), None
     pub nth: Vec<Option<Result<MRead, String>>>,
+    /// the positions asked, parallel to `nth`
+    pub nth_pos: Vec<usize>,
     /// size_hint before each next(), and after the last
     pub hints: Vec<(usize, Option<usize>)>,
 }
@@ -75,8 +81,14 @@ pub fn observe(case: &Case) -> Obs {
         let path = dir.join(format!("c04-{}.shp", tid));
         {
             let mut w = ShapeWriter::from_path(&path).expect("create");
-            for s in &libs {
+            if case.fin_mask & 1 != 0 {
+                w.finalize().expect("finalize");
+            }
+            for (i, s) in libs.iter().enumerate() {
                 write_shape(&mut w, s).expect("write");
+                if i < 31 && case.fin_mask & (1 << (i + 1)) != 0 {
+                    w.finalize().expect("finalize");
+                }
             }
         }
         shp = std::fs::read(&path).unwrap();
@@ -87,8 +99,14 @@ pub fn observe(case: &Case) -> Obs {
         let (a, b) = (Dev::quiet(vec![]), Dev::quiet(vec![]));
         {
             let mut w = ShapeWriter::with_shx(a.clone(), b.clone());
-            for s in &libs {
+            if case.fin_mask & 1 != 0 {
+                w.finalize().expect("finalize");
+            }
+            for (i, s) in libs.iter().enumerate() {
                 write_shape(&mut w, s).expect("write");
+                if i < 31 && case.fin_mask & (1 << (i + 1)) != 0 {
+                    w.finalize().expect("finalize");
+                }
             }
         }
         shp = a.data();
@@ -127,8 +145,12 @@ pub fn observe(case: &Case) -> Obs {
         Ok(v)
     });
     let mut nth = vec![];
+    let mut nth_pos = vec![];
     if let Ok(mut r) = open() {
-        for i in 0..n + 2 {
+        // random access at every position (for very long files: both ends and the block boundaries)
+        let positions: Vec<usize> = if n <= 64 { (0..n + 2).collect() } else { (0..8).chain(n / 2 - 2..n / 2 + 2).chain(1020..1030.min(n)).chain(n - 4..n + 2).collect() };
+        for i in positions {
+            nth_pos.push(i);
             nth.push(r.read_nth_shape(i).map(|x| x.map(|s| from_lib(&s)).map_err(|e| err_kind(&e))));
         }
     }
@@ -140,6 +162,7 @@ pub fn observe(case: &Case) -> Obs {
         seq_with,
         seq_without,
         nth,
+        nth_pos,
         hints,
     }
 }
@@ -166,23 +189,22 @@ pub fn judge(case: &Case, o: &Obs) -> Vec<(String, String)> {
             } else if !a.iter().zip(b).all(|(x, y)| mread_eq(x, y)) {
                 out.push((format!("{}:iteration-with-vs-without-index", tn), "sequences differ".into()));
             }
-            if o.nth.len() != n + 2 {
+            if o.nth.is_empty() {
                 out.push((format!("{}:random-access-open", tn), "reader could not be reopened".into()));
             } else {
-                for i in 0..n.min(a.len()) {
-                    match &o.nth[i] {
-                        Some(Ok(s)) if mread_eq(s, &a[i]) => {}
-                        other => {
-                            out.push((
-                                format!("{}:random-access-differs", tn),
-                                format!("read_nth_shape({}) = {} but iteration position {} holds another shape", i, match other { Some(Ok(_)) => "a different shape".to_string(), Some(Err(e)) => format!("Err({})", e), None => "None".into() }, i),
-                            ));
-                            break;
+                for (x, &i) in o.nth.iter().zip(&o.nth_pos) {
+                    if i < n.min(a.len()) {
+                        match x {
+                            Some(Ok(s)) if mread_eq(s, &a[i]) => {}
+                            other => {
+                                out.push((
+                                    format!("{}:random-access-differs", tn),
+                                    format!("read_nth_shape({}) = {} but iteration position {} holds another shape", i, match other { Some(Ok(_)) => "a different shape".to_string(), Some(Err(e)) => format!("Err({})", e), None => "None".into() }, i),
+                                ));
+                                break;
+                            }
                         }
-                    }
-                }
-                for i in n..n + 2 {
-                    if o.nth[i].is_some() {
+                    } else if i >= n && x.is_some() {
                         out.push((format!("{}:random-access-beyond-end", tn), format!("read_nth_shape({}) is Some for a file of {} shapes", i, n)));
                         break;
                     }
@@ -218,7 +240,7 @@ fn run_case(case: &Case, ctx: &mut Ctx) {
     let mut oh = Fnv::new();
     oh.bytes(&obs.shx);
     ctx.case_done(case.hash(), case.seq.len() >= 2, oh.finish());
-    if case.seq.len() >= 3 {
+    if case.seq.len() >= 3 && case.seq.len() < 10 {
         ctx.sample(|| case.to_json());
     }
     for (sig, d) in judge(case, &obs) {
@@ -231,6 +253,7 @@ fn selftest() -> (u64, u64) {
         ty: Ty::PolygonM,
         seq: vec![1, 0, 2],
         disk: false,
+        fin_mask: 0,
     };
     if !judge(&case, &observe(&case)).is_empty() {
         return (1, 0);
@@ -274,15 +297,30 @@ pub fn check(tier: Tier) -> i32 {
                     ty,
                     seq: t.clone(),
                     disk: false,
+                    fin_mask: 0,
                 });
                 if n <= 2 || (n == 3 && t[0] == 0) {
                     cases.push(Case {
                         ty,
-                        seq: t,
+                        seq: t.clone(),
                         disk: true,
+                        fin_mask: 0,
                     });
                 }
+                // every finalize placement around short sequences
+                if n <= 3 && t.iter().all(|i| *i < 3) {
+                    for mask in 1u32..(1 << (n + 1)) {
+                        cases.push(Case { ty, seq: t.clone(), disk: n <= 1, fin_mask: mask });
+                    }
+                }
             }
+        }
+    }
+    // record-count ladder around powers of two
+    for ty in [Ty::Point, Ty::MultipointM, Ty::PolylineZ] {
+        let k = reduced_set(ty).len();
+        for n in [255usize, 256, 257, 1023, 1024, 1025, 2049] {
+            cases.push(Case { ty, seq: (0..n).map(|i| (i * 7 + i / 3) % k).collect(), disk: n == 1025, fin_mask: if n == 1025 { 1 << 20 } else { 0 } });
         }
     }
     let nblocks = (cases.len() + 63) / 64;
